@@ -403,4 +403,19 @@ def run(p: Program, rep: Report, tier: str) -> None:
                 rep.violation("R1.5", construct(pm, c), where(pm, c), f"{side}: the helper is not called with (self.stream(), boundary, charset, file_factory=UploadFile)")
         else:
             rep.violation("R1.5", construct(pm, text="helper call"), where(pm), f"{side}: _parse_multipart does not call {helper} of its own interface exactly once")
-    rep.require_instances("R1.5", 6)
+    # the WSGI form accessor reads its chunks from Request.stream(): that reader must end on an empty read only, otherwise a
+    # server that delivers the body in short reads makes the form depend on how the bytes arrived
+    from .c10 import wsgi_read_loop
+    wst = p.cls("baize.wsgi.requests:Request").methods.get("stream")
+    if wst is None:
+        raise AnalysisError("wsgi Request.stream vanished")
+    rep.analysed(wst.fq)
+    r = wsgi_read_loop(wst)
+    if r[0] == "ok":
+        rep.ok("R1.5", "wsgi: the chunk source of the form accessor ends on an empty read only and yields every chunk")
+    elif r[0] == "violation":
+        rep.violation("R1.5", construct(wst, text="read loop"), where(wst, r[2]), f"wsgi: Request.stream() - the chunk source of the form accessor: {r[1]}; "
+                      "with a server that returns short reads the multipart body is cut off (the result depends on the chunking)")
+    else:
+        rep.undecide("R1.5", f"wsgi Request.stream(): {r[1]}")
+    rep.require_instances("R1.5", 7)
